@@ -88,7 +88,8 @@ PROPS = {
                 key=lambda ops: any(o.startswith('b_finish') for o in ops)),
 }
 
-COUNTS = {'quick': 1500, 'thorough': 24000}
+# histories per scenario family (a property with more families gets proportionally more histories)
+PER_FAMILY = {'quick': 500, 'thorough': 8000}
 TRUSTED_BASE = [
     'Coq 8.16.1 kernel (coqc; coqchk in the thorough tier); vm_compute in Examples and *_refuted witnesses; no native_compute',
     'axioms: none (every Print Assumptions reports "Closed under the global context"); hypotheses of theorems, not axioms: '
@@ -436,8 +437,8 @@ def corpus_for(prop):
 
 def make_histories(prop, tier, seed):
     spec = PROPS[prop]
-    count = COUNTS[tier]
     fams = [f for f in spec['fams'] if f in gen.FAMILIES]
+    count = max(1500, PER_FAMILY[tier] * len(fams)) if tier == 'quick' else PER_FAMILY[tier] * max(3, len(fams))
     hs = [(h.family, h.text()) for h in gen.generate(seed, fams, count)]
     if prop == 'C11':
         hs += [('suffix_exhaustive', h.text()) for h in gen.suffix_exhaustive(seed, ns=(4, 5, 8) if tier == 'quick' else (4, 5, 8, 9, 17, 33))]
